@@ -52,7 +52,7 @@ func init() {
 			for _, r := range rows {
 				ts = append(ts, Task{Func: "VerifC17GlobalRow", Args: r[:], Note: "w, h, row, reuse (dirty buffer of w+reuse-1 bits); every pixel a free bit; sharpened-threshold model", Timeout: 900})
 			}
-			hb := [][5]int64{{40, 40, -1, -1, 0}, {45, 43, -1, -1, 0}, {47, 41, 5, 5, 8}, {40, 40, 2, 2, 8}}
+			hb := [][5]int64{{40, 40, -1, -1, 0}, {45, 43, -1, -1, 0}, {40, 41, -1, -1, 0}, {41, 40, -1, -1, 0}, {48, 45, -1, -1, 0}, {47, 41, 5, 5, 8}, {40, 40, 2, 2, 8}}
 			if thorough {
 				hb = append(hb, [5]int64{40, 40, 0, 0, 8}, [5]int64{40, 40, 4, 4, 8}, [5]int64{48, 40, 5, 2, 8}, [5]int64{41, 47, 0, 5, 8}, [5]int64{56, 56, -1, -1, 0}, [5]int64{40, 40, 2, 2, 12})
 			}
